@@ -186,27 +186,38 @@ func RunOpReused(r OpReq, warm [][]*ref.T) Outcome {
 	})
 }
 
-// RunOpsShared executes the requests one after another through the operator API
-// (a fresh operator each). Operands that are the same *ref.T in several requests
-// are converted once: every call receives the same tensor object, as a caller
-// that builds a parameter tensor once and uses it for several calls would pass it.
+// SharedRunner executes requests through the operator API (a fresh operator
+// each). Operands that are the same *ref.T in several requests are converted
+// once: every call receives the same tensor object, as a caller that builds a
+// parameter tensor once and uses it for several calls would pass it.
+type SharedRunner struct{ cache map[*ref.T]tensor.Tensor }
+
+// NewSharedRunner returns a runner with an empty operand cache.
+func NewSharedRunner() *SharedRunner { return &SharedRunner{cache: map[*ref.T]tensor.Tensor{}} }
+
+// Run executes one request on the cached operand objects.
+func (s *SharedRunner) Run(r OpReq) Outcome {
+	ins := make([]tensor.Tensor, len(r.Inputs))
+	for i, in := range r.Inputs {
+		if in == nil {
+			continue
+		}
+		t, ok := s.cache[in]
+		if !ok {
+			t = ToTensor(in)
+			s.cache[in] = t
+		}
+		ins[i] = t
+	}
+	return runOpOn(r, ins)
+}
+
+// RunOpsShared executes the requests one after another on one SharedRunner.
 func RunOpsShared(reqs []OpReq) []Outcome {
-	cache := map[*ref.T]tensor.Tensor{}
+	sr := NewSharedRunner()
 	outs := make([]Outcome, len(reqs))
 	for j, r := range reqs {
-		ins := make([]tensor.Tensor, len(r.Inputs))
-		for i, in := range r.Inputs {
-			if in == nil {
-				continue
-			}
-			t, ok := cache[in]
-			if !ok {
-				t = ToTensor(in)
-				cache[in] = t
-			}
-			ins[i] = t
-		}
-		outs[j] = runOpOn(r, ins)
+		outs[j] = sr.Run(r)
 	}
 	return outs
 }
